@@ -31,7 +31,13 @@ RootsOf(p, n) == KidsOf(p, n, 0)
 
 RawForest(p, n) ==
     LET roots == RootsOf(p, n) IN
-    [units |-> [j \in 1..Len(roots) |-> [kind |-> "cu", ver |-> 2 + ((j + n) % 4), root |-> roots[j], file |-> 0]],
+    \* units of every DWARF version; version 5 headers say what kind of unit follows: a type unit (with the
+    \* signature and the offset of its type) and a skeleton unit (with the id of its split unit) have longer
+    \* headers than a compile unit -- the first DIE is where the header ends, whatever its length
+    [units |-> [j \in 1..Len(roots) |->
+                  LET v == 2 + ((j + n) % 4) IN
+                  [kind |-> IF v = 5 THEN (CASE (j + n) % 3 = 0 -> "tu" [] (j + n) % 3 = 1 -> "sk" [] OTHER -> "cu") ELSE "cu",
+                   ver |-> v, root |-> roots[j], file |-> 0]],
      die |-> [d \in 1..n |->
                 \* (a tag says nothing about the position of a DIE: some nested DIEs carry the tag of a unit)
                 [tag |-> IF p[d] = 0 THEN "cu"
